@@ -253,3 +253,62 @@ func TestReproConfigKickReasonLost(t *testing.T) {
 // monitor itself: VERIF_SEED=1 C16_ONLY=92x600 <test binary> -test.run TestC16 fires
 // "failure:player-disconnected-without-cause" about 4 times in 600 runs on the unchanged
 // tree (race build), never with proposed_fixes/C16-config-switch-writer-state.diff.
+
+// The request's context ends while the backend's JoinGame is being handled (here: the
+// ServerConnectedEvent subscriber takes 40 ms; the backend sends JoinGame 20 ms before the
+// deadline). The transition handler's context watcher and handleJoinGame are not mutually
+// exclusive: the watcher reports "context deadline exceeded" and closes the connection while
+// the join goes on, so the request fails AND the join is carried through on a closed
+// connection (the previous server has already been given up at that point).
+func TestReproDeadlineDuringJoin(t *testing.T) {
+	if os.Getenv("C16_REPRO") == "" {
+		t.Skip("set C16_REPRO=1")
+	}
+	for _, pv := range []proto.Protocol{763, 767} {
+		h, err := e2e.New(e2e.Options{})
+		if err != nil {
+			t.Fatal(err)
+		}
+		b0, _ := h.AddBackend("s0", e2e.Always(e2e.Behavior{Mode: e2e.Accept, Threshold: -1}))
+		b1, _ := h.AddBackend("s1", e2e.Always(e2e.Behavior{Mode: e2e.Accept, Threshold: -1,
+			BeforeJoin: func(*e2e.BackendConn) { time.Sleep(80 * time.Millisecond) }}))
+		h.Cfg.Try = []string{"s0"}
+		c := h.NewClient(e2e.ClientOpts{Protocol: pv})
+		if res := c.Login("Alice", "example.com"); !res.Joined || !h.AwaitCurrentServer("Alice", "s0", 5*time.Second) {
+			t.Fatalf("initial join failed: %+v", res)
+		}
+		pl := h.P.PlayerByName("Alice")
+		event.Subscribe(h.Ev, 0, func(e *proxy.ServerConnectedEvent) {
+			if e.Server().ServerInfo().Name() == "s1" {
+				time.Sleep(40 * time.Millisecond)
+			}
+		})
+		ctx, cancel := context.WithTimeout(context.Background(), 100*time.Millisecond)
+		r, err := pl.CreateConnectionRequest(b1.Server()).Connect(ctx)
+		cancel()
+		time.Sleep(200 * time.Millisecond)
+		cur := "<none>"
+		if cs := pl.CurrentServer(); cs != nil {
+			cur = cs.Server().ServerInfo().Name()
+		}
+		var listed, live []string
+		for n, b := range map[string]*e2e.Backend{"s0": b0, "s1": b1} {
+			if h.P.Server(n).Players().Len() > 0 {
+				listed = append(listed, n)
+			}
+			for _, bc := range b.Conns() {
+				if !bc.EOF() {
+					live = append(live, n)
+				}
+			}
+		}
+		gone := c.Kicked() != nil || c.EOF()
+		t.Logf("protocol %d: Connect(s1) -> %s; CurrentServer=%s listed on %v live backend connections %v client disconnected=%v (%s)",
+			pv, status(r, err), cur, listed, live, gone, e2e.ReasonText(c.Kicked()))
+		ok := !gone && len(listed) == 1 && listed[0] == cur && len(live) == 1 && live[0] == cur
+		if !ok {
+			t.Errorf("DEFECT (protocol %d): the deadline fired while JoinGame was being handled: request result and player state do not fit together", pv)
+		}
+		c.Close()
+	}
+}
